@@ -287,6 +287,10 @@ func c09BGV(ctx *core.RunCtx, scaleInvariant bool) *c09Scheme {
 		}, callNew: func(e any, a *rlwe.Ciphertext, b any, k int) (*rlwe.Ciphertext, error) {
 			return ev(e).RotateColumnsNew(a, k)
 		}},
+		{name: "RotateColumns(0)", op1: []int{vNone}, needDeg1: true, deg: degOne, call: func(e any, a *rlwe.Ciphertext, b any, k int, o *rlwe.Ciphertext) error {
+			// the identity automorphism: the receiver takes the value and the shape of the input
+			return ev(e).RotateColumns(a, 0, o)
+		}},
 		{name: "RotateRows", op1: []int{vNone}, deg: degOne, call: func(e any, a *rlwe.Ciphertext, b any, k int, o *rlwe.Ciphertext) error { return ev(e).RotateRows(a, o) },
 			callNew: func(e any, a *rlwe.Ciphertext, b any, k int) (*rlwe.Ciphertext, error) { return ev(e).RotateRowsNew(a) }},
 		{name: "InnerSum", op1: []int{vNone}, ks: []int{1, 2}, deg: degSame, call: func(e any, a *rlwe.Ciphertext, b any, k int, o *rlwe.Ciphertext) error {
@@ -759,7 +763,13 @@ func c09CKKS(ctx *core.RunCtx) *c09Scheme {
 		case vBig:
 			return new(big.Int).SetInt64(int64(g.Next()%11) - 5)
 		default:
-			return new(big.Float).SetPrec(128).SetFloat64(rf(g) * 2)
+			// big-number scalars at the precision of the encoding (where a conversion has nothing to do), at the
+			// default precision of the type, and above; real or complex
+			prec := []uint{cp.EncodingPrecision(), 53, 128, 64}[g.Next()%4]
+			if g.Next()%3 == 0 {
+				return &bignum.Complex{new(big.Float).SetPrec(prec).SetFloat64(rf(g) * 2), new(big.Float).SetPrec(prec).SetFloat64(rf(g))}
+			}
+			return new(big.Float).SetPrec(prec).SetFloat64(rf(g) * 2)
 		}
 	}
 	ev := func(x any) *ckks.Evaluator { return x.(*c09Sys).ev.(*ckks.Evaluator) }
@@ -825,6 +835,7 @@ func c09CKKS(ctx *core.RunCtx) *c09Scheme {
 		}},
 		{name: "Rotate", op1: []int{vNone}, ks: c09Rotations, deg: degOne, call: func(e any, a *rlwe.Ciphertext, b any, k int, o *rlwe.Ciphertext) error { return ev(e).Rotate(a, k, o) },
 			callNew: func(e any, a *rlwe.Ciphertext, b any, k int) (*rlwe.Ciphertext, error) { return ev(e).RotateNew(a, k) }},
+		{name: "Rotate(0)", op1: []int{vNone}, needDeg1: true, deg: degOne, call: func(e any, a *rlwe.Ciphertext, b any, k int, o *rlwe.Ciphertext) error { return ev(e).Rotate(a, 0, o) }},
 		{name: "Conjugate", op1: []int{vNone}, deg: degOne, call: func(e any, a *rlwe.Ciphertext, b any, k int, o *rlwe.Ciphertext) error { return ev(e).Conjugate(a, o) },
 			callNew: func(e any, a *rlwe.Ciphertext, b any, k int) (*rlwe.Ciphertext, error) { return ev(e).ConjugateNew(a) }},
 		{name: "ScaleUp", op1: []int{vNone}, ks: []int{2, 3, 8}, deg: degSame, call: func(e any, a *rlwe.Ciphertext, b any, k int, o *rlwe.Ciphertext) error {
